@@ -213,6 +213,12 @@ def alphabet(cfg):
     wnan = list(ins)
     wnan[i0] = NAN
     ops += [("all", ins), ("all", out_hi), ("all", out_lo), ("all", wnan)]
+    if n >= 2:
+        # a missing component together with an out-of-bounds one in the same assignment
+        wnan_out = list(ins)
+        wnan_out[i0] = NAN
+        wnan_out[i1] = vc1["above"]
+        ops.append(("all", wnan_out))
     return ops
 
 
@@ -471,7 +477,7 @@ def run_vectors(ctx):
                 xs = []
                 for j in range(n):
                     vcj = value_classes(mins[j], maxs[j], defs[j])
-                    xs.append(list(vcj.values())[int(rng.integers(0, len(vcj) - 1))]
+                    xs.append(list(vcj.values())[int(rng.integers(0, len(vcj)))]
                               if rng.random() < 0.4 else vcj["inside"])
                 seq.append(("all", xs))
             else:
